@@ -1595,6 +1595,24 @@ func (s *Store) StoreObject(collection CollectionIndex, id string, data interfac
 	return nil
 }
 
+// deleteValueAndStoreObject deletes a key and stores an object in one (atomic) transaction
+func (s *Store) deleteValueAndStoreObject(deleteKey []byte, collection CollectionIndex, id string, data interface{}) error {
+	b, err := json.Marshal(data)
+	if err != nil {
+		s.logger.Error(err)
+		return err
+	}
+	indexBytes := make([]byte, 2)
+	binary.BigEndian.PutUint16(indexBytes, uint16(collection))
+	key := append(indexBytes, []byte("::"+id)...)
+	return s.database.Update(func(txn *badger.Txn) error {
+		if err := txn.Delete(deleteKey); err != nil {
+			return err
+		}
+		return txn.Set(key, b)
+	})
+}
+
 func (s *Store) GetObject(collection CollectionIndex, id string, obj interface{}) error {
 	indexBytes := make([]byte, 2)
 	binary.BigEndian.PutUint16(indexBytes, uint16(collection))
